@@ -44,10 +44,14 @@ CLAIMED["C03"] = dict(
        "Merkle root, values, dual proofs from acknowledged states, index lookups and a fresh commit. Each outcome is inserted as a Recovered event at the crash position of "
        "the logical hook trace; TLC validates the execution against spec/Store.tla (write-ordering guards: a commit-log entry only after tx record and values are durable; "
        "ack only after the commit log is fsynced) and judges every image with RecoveredVerdict on the spec state at that instant (everything committed survives identically; "
-       "the rest is a gap-free chained extension by really precommitted txs; proofs, index, new commits fine). MCStore.tla is model-checked exhaustively.",
+       "the rest is a gap-free chained extension by really precommitted txs; proofs, index, new commits fine). MCStore.tla is model-checked exhaustively. "
+       "spec/StoreCrash.tla (physical model: tx log / commit log / value log as buffered files written at offsets, sync() in six steps, discard, kill / power-loss crashes, "
+       "restart, OpenWith's recovery transcribed) is model-checked exhaustively (1-2 crashes), two anchor defects must be found by TLC, and behaviours printed by TLC -simulate "
+       "are replayed on the real store (harness/cmd/c03 -scripts): the recovered frontier and transactions must be exactly the ones the model's Recover computes.",
   design_ref="DESIGN.md §4 C03",
   note="Crash model: per-file prefix of un-fsynced writes + torn last write, no reordering inside a file, directory entries durable after SyncDir (what the code assumes). "
-       "Crashes during recovery itself are not enumerated yet. Workloads are the ones the driver generates (6 quick / 24 thorough, ~5-10k images quick).",
+       "Repeated crashes: second-level enumeration on sampled first-level images (incl. crash points during the recovery run) and two-crash behaviours of StoreCrash. "
+       "Workloads are the ones the driver generates (6 + 1 directed quick / 24 + 1 thorough, ~5-10k images quick) plus 70 / 600 StoreCrash behaviours.",
   technique="physical-operation hooks + exhaustive crash-point enumeration on real recovery, verdicts by TLC trace validation against Store.tla")
 
 CLAIMED["C01"] = dict(
@@ -59,7 +63,12 @@ CLAIMED["C01"] = dict(
        "semantic truth (new state linked to the trusted one). Every case is then executed on the real code: real stores with those shapes (built via ReplicateTx), real "
        "store.DualProof output, the same mixtures/alterations applied to the real structs, real store.VerifyDualProof in the client flow; accept without truth or reject of an "
        "honest proof is a violation, any difference to the transcription is reported as model drift. Proof-shape soundness of the underlying tree verifiers (incl. the equivocation "
-       "attack via re-labelled inclusion proofs, repaired by a fix: commit) is decided by C08's cases.",
+       "attack via re-labelled inclusion proofs, repaired by a fix: commit) is decided by C08's cases. ProofCases also enumerates split-view servers (Proofs!HistPoison: "
+       "well-formed linear chain, foreign leaf in the binary-linking tree), replayed with hand-assembled proofs over a real ahtree (the assembly is compared with the real "
+       "ImmuStore.DualProof on every unpoisoned shape first). spec/ClientFlow.tla models the Verifiable* response as a whole (header copies, entry, reference, tx entries, "
+       "inclusion proof, SQL row + catalog) and the Go client's verifiedGet / VerifiedTxByID / VerifiedSet / StreamVerifiedGet / VerifyRow statement by statement; TLC enumerates "
+       "every set of up to K altered fields (K=2 quick, 3 thorough) incl. consistently recomputed digests and swapped answers; harness/cmd/c01c applies them between a real "
+       "in-process server and the real pkg/client and compares what the client hands back and the state it moves to with the database.",
   design_ref="DESIGN.md §4 C01",
   note="Bounded: N<=5 txs, one entry per tx, single alterations and one-component mixtures, forks of well-formed histories. Not yet covered: multi-step client sessions, "
        "pkg/client + pkg/database Verifiable* conversions and signatures, malformed-history adversary with proof solving for dual proofs, DualProofV2.",
